@@ -71,6 +71,7 @@ type c16Opts struct {
 	Sizes []int64 // when set, sizes are drawn only from this list
 	OrderlyOnly bool
 	Watchdog   time.Duration // per-tunnel client deadline (default 60 s clean / 6 s collision-prone)
+	AbortHeavy bool // most tunnels are large downloads the client cancels part-way
 	ChunkWhole bool // client writes each direction with a single Write call
 	TapHook    func(tap *mkTap) // called right after the frame tap is installed
 	SkipDataOracle bool // C17 judges bookkeeping only (faults legitimately cut tunnels short)
@@ -171,6 +172,12 @@ func c16Plans(rng *verifkit.Rand, tp c16Topo, dest *mkDest, n int, maxBytes int6
 		}
 		if opts.OrderlyOnly {
 			p.Mode = mkModeOrderly
+		}
+		if opts.AbortHeavy && i%4 != 0 {
+			p.Mode = mkModeClientAbort
+			p.S2C = int64(1500000 + rng.Intn(1500000))
+			p.C2S = int64(rng.Intn(2000))
+			p.AbortAfter = int64(1 + rng.Intn(120000)) // cancel while the far end is still pumping
 		}
 		if p.Via == "tcp" && opts.RefusedPct > 0 && rng.Intn(100) < opts.RefusedPct {
 			p.Mode = mkModeRefused
